@@ -224,7 +224,14 @@ func VerifHarness_C06_gate() {
 	}
 	admin := ndBool("admin-message")
 	var m *Message
-	if admin {
+	bareResend := false
+	if admin && d.d34 == 0 && ndBool("resendrequest-without-its-range") {
+		// (a ResendRequest is exempt from the MsgSeqNum checks by design: those defects are not combined with it)
+		// a second, message-level fault on top: the session-level checks still come first
+		verifCase("resendrequest-without-range")
+		bareResend = true
+		m = r.inbound("2", T)
+	} else if admin {
 		verifCase("heartbeat")
 		m = r.inbound("0", T)
 	} else {
@@ -254,7 +261,11 @@ func VerifHarness_C06_gate() {
 	switch class {
 	case c06OK:
 		verifCase("ok")
-		verifAssert(callbacks == 1 && T1 == T+1 && nRej == 0 && nLogout == 0, "good-message-delivered")
+		if bareResend {
+			verifAssert(nRej == 1 && nLogout == 0 && T1 == T+1, "resendrequest-without-range-rejected-as-such")
+		} else {
+			verifAssert(callbacks == 1 && T1 == T+1 && nRej == 0 && nLogout == 0, "good-message-delivered")
+		}
 	case c06LogoutOnly:
 		verifCase("logout-only")
 		verifAssert(nLogout == 1 && nRej == 0, "reaction-logout-only")
